@@ -124,7 +124,10 @@ class ExtCommunity(Attribute):
                 ext_community.append('%s:%s:%s' % (bgp_cons.BGP_EXT_COM_STR_DICT[comm_code], ipv4, copy_flag))
             elif comm_code == bgp_cons.BGP_EXT_TRA_RATE:
                 asn, rate = struct.unpack('!Hf', value_tmp)
-                ext_community.append('%s:%s:%s' % (bgp_cons.BGP_EXT_COM_STR_DICT[comm_code], asn, int(rate)))
+                if rate == int(rate):
+                    rate = int(rate)
+                # (a rate with a fraction keeps it: the text must give the same rate back)
+                ext_community.append('%s:%s:%s' % (bgp_cons.BGP_EXT_COM_STR_DICT[comm_code], asn, rate))
 
             elif comm_code == bgp_cons.BGP_EXT_TRA_ACTION:
                 bit_value = parse_bit(ord(value_tmp[-1:]))
@@ -220,7 +223,7 @@ class ExtCommunity(Attribute):
                 ext_community_hex += struct.pack('!HIBB', bgp_cons.BGP_EXT_TRA_MARK, 0, 0, item[1])
             elif item[0] == bgp_cons.BGP_EXT_TRA_RATE:
                 asn, rate = item[1].split(':')
-                ext_community_hex += struct.pack('!HHf', bgp_cons.BGP_EXT_TRA_RATE, int(asn), int(rate))
+                ext_community_hex += struct.pack('!HHf', bgp_cons.BGP_EXT_TRA_RATE, int(asn), float(rate))
 
             # Transitive Opaque
             elif item[0] == bgp_cons.BGP_EXT_COM_COLOR:
